@@ -196,9 +196,11 @@ func rendererCalls(regs []*registration) string {
 
 // regProbeRun: one request; the verdict for the judged handler under its own options.
 func regProbeRun(regs []*registration, p regProbe) (clause, obs string) {
+	takePanics()
 	defer func() {
 		if pn := recover(); pn != nil {
-			clause, obs = "panic", fmt.Sprint(pn)
+			notePanic("server", pn)
+			clause, obs, _ = serverPanicVerdict("")
 		}
 	}()
 	for _, r := range regs {
@@ -208,8 +210,11 @@ func regProbeRun(regs []*registration, p regProbe) (clause, obs string) {
 	want := codes.Code(p.Code)
 	reqVal := strconv.FormatUint(uint64(p.Code), 10)
 	if p.Stream {
-		so := streamCallReq(common.HandlerRT(me.stream), optSet{}, reqVal)
+		so := streamCallReq(handlerRT("server", me.stream), optSet{}, reqVal)
 		obs = so.obs(optSet{}) + "; " + rendererCalls(regs)
+		if cl, d, bad := serverPanicVerdict(obs + ";"); bad {
+			return cl, d
+		}
 		switch {
 		case so.panicked != nil:
 			return "stream-panic", fmt.Sprintf("%s panic=%v", obs, so.panicked)
@@ -235,10 +240,11 @@ func regProbeRun(regs []*registration, p regProbe) (clause, obs string) {
 	}
 	req := httptest.NewRequest("POST", "/t.S/M", bytes.NewReader(reqBody)).WithContext(ctx)
 	req.Header.Set("Content-Type", httpgrpc.UnaryRpcContentType_V1)
-	rec := httptest.NewRecorder()
-	me.unary.ServeHTTP(rec, req)
-	rp := reply{rec.Code, rec.Header(), rec.Body.Bytes()}
+	rp, _ := serveRecorded("server", me.unary, req)
 	calls := rendererCalls(regs)
+	if cl, d, bad := serverPanicVerdict(calls + ";"); bad {
+		return cl, d
+	}
 	ownCustom := me.spec.Renderer == "nothing" || me.spec.Renderer == "teapot"
 	renderer := "default"
 	if ownCustom {
@@ -293,7 +299,7 @@ func runRegCase(c regCase) (res regResult) {
 		func() {
 			defer func() {
 				if pn := recover(); pn != nil {
-					res.Fails = append(res.Fails, regFail{regProbe{Judged: k, After: k}, "panic-registering", fmt.Sprint(pn)})
+					res.Fails = append(res.Fails, regFail{regProbe{Judged: k, After: k}, "panic-registering", fmt.Sprintf("%v at %s", pn, panicOrigin())})
 				}
 			}()
 			r = register(spec)
@@ -362,12 +368,33 @@ func runRegChild(c regCase) (regResult, error) {
 	var stdout, stderr bytes.Buffer
 	cmd.Stdout, cmd.Stderr = &stdout, &stderr
 	if err := cmd.Run(); err != nil {
+		if crash := goCrash(stderr.String()); crash != "" && ctx.Err() == nil {
+			// the child died of a panic that nothing in it could recover (raised on a goroutine
+			// the library started itself): a violation for this sequence; the other sequences go on
+			res.Evals = 1
+			res.Fails = []regFail{{regProbe{Judged: len(c.Seq) - 1, After: len(c.Seq)}, "panic-escaped", "the process of this sequence died: " + crash}}
+			return res, nil
+		}
 		return res, fmt.Errorf("child for %s: %v: %s", c.seqString(), err, stderr.String())
 	}
 	if err := json.Unmarshal(stdout.Bytes(), &res); err != nil {
 		return res, fmt.Errorf("child for %s: %v: %q", c.seqString(), err, stdout.String())
 	}
 	return res, nil
+}
+
+// goCrash: the head of a Go crash report ("panic: ..." / "fatal error: ..." followed by
+// goroutine traces) in a child's stderr, "" if there is none.
+func goCrash(stderr string) string {
+	if !strings.Contains(stderr, "\ngoroutine ") {
+		return ""
+	}
+	for _, l := range strings.Split(stderr, "\n") {
+		if strings.HasPrefix(l, "panic: ") || strings.HasPrefix(l, "fatal error: ") {
+			return l
+		}
+	}
+	return ""
 }
 
 // runRegCases: one child per case, a few at a time; results in the order of the cases.
